@@ -89,6 +89,9 @@ def finish(prop, tier, results, t0, explanation, not_decided, level="other", con
     unlisted = [v for v in all_v if v["key"] not in known_keys]
     listed = [v for v in all_v if v["key"] in known_keys]
     os.makedirs(os.path.join(EVID, "violations"), exist_ok=True)
+    for old in os.listdir(os.path.join(EVID, "violations")):
+        if old.startswith(prop + "-") and old.endswith(".json"):
+            os.remove(os.path.join(EVID, "violations", old))     # replay files describe the latest run only
     lines = []
     for v in listed:
         lines.append("KNOWN-FINDING: property=%s %s [%s]" % (prop, known_keys[v["key"]]["what"], v["key"]))
